@@ -99,7 +99,32 @@ fn check_case(c: &SeqCase, obs: &mut Obs) -> Verdict {
             }
         }
     }
-    for (what, pairs) in [("raw callback stream", &pairs_raw), ("captured ops", &pairs_cap)] {
+    // the same items as the lines of a text diff (TextDiff with Algorithm::Patience; above 100 lines
+    // this goes through the integer mapping)
+    let mut pairs_text = vec![];
+    let text_diffed = c.is_full() && c.old.len() + c.new.len() <= 3000;
+    if text_diffed {
+        let os_: Vec<String> = c.old.iter().map(|x| format!("line {}\n", x)).collect();
+        let ns_: Vec<String> = c.new.iter().map(|x| format!("line {}\n", x)).collect();
+        let (to, tn): (String, String) = (os_.concat(), ns_.concat());
+        match guard(|| similar::TextDiff::configure().algorithm(similar::Algorithm::Patience).diff_lines(&to, &tn).ops().to_vec()) {
+            Ok(tops) => {
+                for op in &tops {
+                    if let DiffOp::Equal { old_index, new_index, len } = *op {
+                        for t in 0..len {
+                            pairs_text.push((old_index + t, new_index + t));
+                        }
+                    }
+                }
+            }
+            Err(p) => return Verdict::Fail(format!("patience text diff: {}", p)),
+        }
+    }
+    let mut sources = vec![("raw callback stream", &pairs_raw), ("captured ops", &pairs_cap)];
+    if text_diffed {
+        sources.push(("TextDiff (Patience) over the items as lines", &pairs_text));
+    }
+    for (what, pairs) in sources {
         let set: std::collections::HashSet<(usize, usize)> = pairs.iter().cloned().collect();
         let mut covered = 0;
         for (i, j) in &u {
@@ -166,8 +191,30 @@ fn check_case(c: &SeqCase, obs: &mut Obs) -> Verdict {
     Verdict::Pass
 }
 
+/// permutations of many distinct items with repeated filler items interleaved, diffed on a sub-range
+fn anchors_and_repeats(tier: Tier) -> BoxedStrategy<SeqCase> {
+    (perm_pair(20, tier.pick(120, 300)), proptest::collection::vec((any::<u16>(), 0u32..3), 0..=60), raw_ranges(true), 0u8..3)
+        .prop_map(|((mut a, mut b), fill, rr, mode)| {
+            for (i, (at, v)) in fill.iter().enumerate() {
+                // repeated filler values live far away from the distinct ones
+                let x = 9_000_000 + *v;
+                if i % 2 == 0 {
+                    let p = pos(*at, a.len());
+                    a.insert(p, x);
+                } else {
+                    let p = pos(*at, b.len());
+                    b.insert(p, x);
+                }
+            }
+            let (or, nr) = ranges_from(rr, a.len(), b.len());
+            SeqCase { alg: 1, old: a, new: b, or, nr, mode, k: None }
+        })
+        .boxed()
+}
+
 fn strat(tier: Tier) -> BoxedStrategy<SeqCase> {
     prop_oneof![
+        1 => anchors_and_repeats(tier),
         8 => seq_case(tier.pick(80, 300), true, 3),
         1 => (perm_pair(20, tier.pick(150, 400)), 0u8..3).prop_map(|((a, b), mode)| {
             let mut c = SeqCase::full(1, a, b);
@@ -176,6 +223,33 @@ fn strat(tier: Tier) -> BoxedStrategy<SeqCase> {
         }),
     ]
     .boxed()
+}
+
+/// fixed large cases: hundreds of unique common items that cross, outnumbered by repeated filler
+fn enum_large(_tier: Tier, f: &mut dyn FnMut(SeqCase) -> bool) {
+    let mut cases = vec![];
+    for n in [300u32, 520, 1100] {
+        // old = uniques then filler; new = filler, then the even uniques, then the odd ones
+        let mut a: Vec<u32> = (1..=n).collect();
+        a.extend(std::iter::repeat(0).take(n as usize + 10));
+        let mut b: Vec<u32> = std::iter::repeat(0).take(n as usize + 10).collect();
+        b.extend((1..=n).filter(|x| x % 2 == 0));
+        b.extend((1..=n).filter(|x| x % 2 == 1));
+        cases.push(SeqCase::full(1, a, b));
+        // uniques interleaved with filler; new = old with the first and the last third exchanged
+        let old: Vec<u32> = (0..3 * n).map(|i| if i % 3 == 0 { 1000 + i } else { i % 2 }).collect();
+        let k = old.len() / 3;
+        let mut new = old[2 * k..].to_vec();
+        new.extend_from_slice(&old[k..2 * k]);
+        new.extend_from_slice(&old[..k]);
+        cases.push(SeqCase::full(1, old, new));
+    }
+    for mut c in cases {
+        c.mode = 0;
+        if !f(c) {
+            return;
+        }
+    }
 }
 
 fn enum_small(tier: Tier, f: &mut dyn FnMut(SeqCase) -> bool) {
@@ -193,7 +267,7 @@ impl Prop for C15 {
     type Case = SeqCase;
     const ID: &'static str = "C15";
     fn rule() -> String {
-        "cases = (old, new, ranges, capture entry point) diffed with Patience, no deadline, raw and captured; enumeration of all pairs over a 4-letter alphabet plus proptest mixture (unique markers at independent positions on both sides, would-be anchors duplicated on one side, permutations, repeats, block moves, sub-ranges). Oracle: U = items occurring exactly once in each range; lis = longest subsequence of U in the same relative order on both sides (patience sorting); the number of U items reported Equal with their unique counterpart must be >= lis, and a U item must never be matched to another position. For a third of the cases the same oracle is also applied to patience::diff over TWO WINDOWS OF ONE BUFFER (old and new are the same object, different ranges). Non-trivial = 0 < lis < |U| and repeated items present; distinct = distinct serialized case.".into()
+        "cases = (old, new, ranges, capture entry point) diffed with Patience, no deadline, raw, captured and (full-range cases) as the lines of a TextDiff with Algorithm::Patience; enumeration of all pairs over a 4-letter alphabet plus proptest mixture (unique markers at independent positions on both sides, would-be anchors duplicated on one side, permutations, repeats, block moves, sub-ranges; permutations of 20-120/300 distinct items with up to 60 repeated filler items interleaved, on sub-ranges). Oracle: U = items occurring exactly once in each range; lis = longest subsequence of U in the same relative order on both sides (patience sorting); the number of U items reported Equal with their unique counterpart must be >= lis, and a U item must never be matched to another position. For a third of the cases the same oracle is also applied to patience::diff over TWO WINDOWS OF ONE BUFFER (old and new are the same object, different ranges). Non-trivial = 0 < lis < |U| and repeated items present; distinct = distinct serialized case.".into()
     }
     fn assumptions() -> Vec<String> {
         vec!["covered > lis is impossible for a valid script and treated as a harness bug (exit 2)".into()]
@@ -206,6 +280,14 @@ impl Prop for C15 {
                     scope: format!("all (old,new) over {{0,1,2,3}} with lengths <= {}, Patience, full ranges", tier.pick(4, 5)),
                     exhaustive: true,
                     gen: enum_small,
+                },
+            },
+            Stage {
+                name: "large",
+                kind: StageKind::Enumerate {
+                    scope: "6 fixed cases: 300 / 520 / 1100 unique common items that cross (evens before odds; exchanged thirds), outnumbered by repeated filler".into(),
+                    exhaustive: true,
+                    gen: enum_large,
                 },
             },
             Stage { name: "random", kind: StageKind::Random { strategy: strat, cases: tier.pick(1_000_000, 5_000_000) } },
